@@ -20,6 +20,7 @@ package outputstream
 //   s:<t>:<id>       (outc) start reader t: GetNext(ctx_t, id)
 //   c:<t>            (outc) cancel ctx_t (does not wake the reader)
 //   i                (outc) InterruptGetNext
+//   k                Close (afterwards only n, s, c, i, j, k are issued: the LevelDB handle is closed)
 //   j:<t>            (outc) report reader t: returned batch / empty / panic / blocked
 // result tokens: a=ok d=ok g=<batch>|g=none n=<batch>|n=empty l=<id>.<reply> i=ok c=ok s=ok
 //   j<t>=<batch>|empty|blocked   and   <op>=panic / j<t>=panic, after which the case stops.
@@ -117,6 +118,23 @@ func verifOutParked(o *OutputStream) int {
 	return int(uint32(nl.FieldByName("wait").Uint()) - uint32(nl.FieldByName("notify").Uint()))
 }
 
+// verifOutGuard runs f; false if it does not finish in time (the stream's mutex is held by a
+// call that died inside GetNext).
+func verifOutGuard(d time.Duration, f func()) bool {
+	ch := make(chan struct{})
+	go func() {
+		defer func() { recover() }()
+		defer close(ch)
+		f()
+	}()
+	select {
+	case <-ch:
+		return true
+	case <-time.After(d):
+		return false
+	}
+}
+
 type verifReader struct {
 	cancel context.CancelFunc
 	mu     sync.Mutex
@@ -175,6 +193,11 @@ func verifOutMainOp(o *OutputStream, tok string) (res string, panicked bool) {
 	case "i":
 		o.InterruptGetNext()
 		return "i=ok", false
+	case "k":
+		// Close: wakes every reader; GetNext answers empty from now on (a second Close only
+		// returns LevelDB's "closed" error)
+		o.Close()
+		return "k=ok", false
 	}
 	return p[0] + "=unknown-op", false
 }
@@ -268,8 +291,10 @@ loop:
 	for _, r := range readers {
 		r.cancel()
 	}
+	if !poisoned && !verifOutGuard(2*time.Second, func() { o.InterruptGetNext() }) {
+		poisoned = true
+	}
 	if !poisoned {
-		o.InterruptGetNext()
 		deadline := time.Now().Add(5 * time.Second)
 	cleanup:
 		for {
